@@ -133,7 +133,7 @@ func init() {
 	c02Register(c02Kind{name: "listed-not-defined",
 		file:  func(b *c02Builder) hx.WMetaFile { return c02File("listednotdefined", c02L, "dsse", hx.WSig{Key: c02L}) },
 		truth: func(c c02Case) []string { return nil }})
-	for _, cn := range []string{"leaf-expired", "leaf-foreign", "leaf-mismatch", "leaf-selfsigned"} {
+	for _, cn := range []string{"leaf-expired", "leaf-foreign", "leaf-mismatch", "leaf-selfsigned", "leaf-twin"} {
 		cn := cn
 		c02Register(c02Kind{name: "bad-cert:" + cn,
 			file: func(b *c02Builder) hx.WMetaFile {
@@ -219,6 +219,10 @@ func c02PKI() hx.PKISpec {
 		leaf("leaf-foreign", "foreignroot", "valid", "acme"),
 		{Name: "leaf-mismatch", Issuer: "inter", Validity: "valid", KeyKind: "p256", CN: "leaf-mismatch", Orgs: []string{"acme", "evil"}, DNS: []string{"b.example", "a.example"}},
 		leaf("leaf-selfsigned", "", "valid", "acme"),
+		// a foreign CA that calls itself like the genuine intermediate, and a certificate of it that
+		// repeats the serial number of a genuine certificate (issuer name + serial identify nothing)
+		{Name: "twinca", IsCA: true, Validity: "valid", KeyKind: "p256", CN: "ca-inter"},
+		{Name: "leaf-twin", Issuer: "twinca", Validity: "valid", KeyKind: "p256", CN: "leaf-twin", Orgs: []string{"acme", "zeta"}, DNS: []string{"b.example", "a.example"}, SerialOf: "leaf1"},
 	}}
 }
 
@@ -518,7 +522,7 @@ func c02Exhaustive(t *testing.T) {
 		"honest-key:" + c02A1 + ":legacy", "honest-key:" + c02A2 + ":dsse", "honest-key:" + c02A3 + ":legacy",
 		"honest-cert:leaf1", "honest-cert:leaf2",
 		"tampered:" + c02A1, "unsigned", "unauthorised-key", "other-step-key", "listed-not-defined",
-		"bad-cert:leaf-expired", "bad-cert:leaf-foreign", "bad-cert:leaf-mismatch",
+		"bad-cert:leaf-expired", "bad-cert:leaf-foreign", "bad-cert:leaf-mismatch", "bad-cert:leaf-twin",
 		"dup-key:" + c02A1, "dup-cert:leaf1", "dup-upper:" + c02A2, "multisig:" + c02A2 + "+" + c02A1, "forged-id:" + c02A3, "junk:garbage",
 	}
 	if hx.Thorough() {
